@@ -35,9 +35,17 @@ const ExtPackagePath = "example.com/verif/ext"
 var selNames = []string{"A", "B", "x", "y", "M", "N", "Pub", "priv", "PubM", "privM", "PtrM", "IM", "im"}
 
 type selMember struct {
-	name   string
-	method bool
-	ptr    bool // pointer receiver
+	name     string
+	method   bool
+	ptr      bool // pointer receiver
+	variadic bool // method takes (xs ...int): visible in method values and method expressions
+}
+
+func (m selMember) params() string {
+	if m.variadic {
+		return "xs ...int"
+	}
+	return ""
 }
 
 type selEmbed struct {
@@ -91,6 +99,13 @@ func SelectorProgram(t *rapid.T) *SelCase {
 			if m.method && !st.iface {
 				m.ptr = rapid.Bool().Draw(t, "ptrrecv")
 			}
+			if m.method {
+				m.variadic = rapid.IntRange(0, 3).Draw(t, "variadic") == 0
+				if st.iface {
+					// interfaces that embed one another must agree on a method's signature
+					m.variadic = name == "N" || name == "y"
+				}
+			}
 			st.members = append(st.members, m)
 		}
 		ne := rapid.IntRange(0, 2).Draw(t, "nembeds")
@@ -136,7 +151,7 @@ func SelectorProgram(t *rapid.T) *SelCase {
 		if st.iface {
 			fmt.Fprintf(&b, "type %s interface {\n", st.name)
 			for _, m := range st.members {
-				fmt.Fprintf(&b, "\t%s() int\n", m.name)
+				fmt.Fprintf(&b, "\t%s(%s) int\n", m.name, m.params())
 			}
 			for _, e := range st.embeds {
 				fmt.Fprintf(&b, "\t%s\n", e.typ)
@@ -164,7 +179,7 @@ func SelectorProgram(t *rapid.T) *SelCase {
 				if m.ptr {
 					recv = "*" + recv
 				}
-				fmt.Fprintf(&b, "func (r %s) %s() int { return 0 }\n\n", recv, m.name)
+				fmt.Fprintf(&b, "func (r %s) %s(%s) int { return 0 }\n\n", recv, m.name, m.params())
 			}
 		}
 	}
@@ -253,6 +268,13 @@ func SelectorProgram(t *rapid.T) *SelCase {
 	}
 	if len(os) == 0 {
 		c.Feats = append(c.Feats, "name-absent")
+	}
+	for _, st := range ts {
+		for _, m := range st.members {
+			if m.variadic && m.name == name {
+				c.Feats = append(c.Feats, "variadic-method-of-that-name")
+			}
+		}
 	}
 	return c
 }
